@@ -12,7 +12,7 @@ from debian.copyright import Copyright, FilesParagraph, Header
 
 from .global_licensing import REUSE_TOML_VERSION
 
-_SINGLE_ASTERISK_PATTERN = re.compile(r"(?<!\*)\*(?!\*)")
+_ESCAPE_OR_ASTERISKS_PATTERN = re.compile(r"\\.|\*+")
 
 _T = TypeVar("_T")
 
@@ -58,7 +58,13 @@ def _convert_asterisk(path: str) -> str:
     """This solves a semantics difference. A singular asterisk is semantically
     identical to a double asterisk in REUSE.toml.
     """
-    return _SINGLE_ASTERISK_PATTERN.sub("**", path)
+    def replace(match: re.Match) -> str:
+        # Leave escape sequences (e.g. an escaped asterisk) and runs of
+        # several asterisks alone.
+        text = match.group()
+        return "**" if text == "*" else text
+
+    return _ESCAPE_OR_ASTERISKS_PATTERN.sub(replace, path)
 
 
 def _paths_from_paragraph(paragraph: FilesParagraph) -> Union[str, list[str]]:
